@@ -455,8 +455,20 @@ func (p *pdr) parseApplicationID(ie *ie.IE, appPFDs map[string]appPFD) error {
 	return nil
 }
 
+// sdfFilterFields decodes an SDF Filter IE. go-pfcp slices the payload by the flow description
+// length found inside it without checking it, so a corrupted IE makes it panic; report an error.
+func sdfFilterFields(sdfIE *ie.IE) (fields *ie.SDFFilterFields, err error) {
+	defer func() {
+		if r := recover(); r != nil {
+			fields, err = nil, ErrOperationFailedWithReason("parse SDF Filter", "malformed SDF Filter IE")
+		}
+	}()
+
+	return sdfIE.SDFFilter()
+}
+
 func (p *pdr) parseSDFFilter(ie *ie.IE) error {
-	sdfFields, err := ie.SDFFilter()
+	sdfFields, err := sdfFilterFields(ie)
 	if err != nil {
 		return err
 	}
